@@ -5,3 +5,5 @@ id=$1; n=$2; d=${3:-/tmp/mut2}
 git -C /repo apply $d/$id/$n/patch.diff || exit 1
 /verif/bin/gvc check $id 2>&1 | grep "VIOLATION\|^$id:" | cut -c1-240
 git -C /repo checkout -- .
+# leave the evidence file of the unchanged tree behind, not the one of the mutated run
+/verif/bin/gvc check $id >/dev/null 2>&1
